@@ -199,4 +199,28 @@ theorem handleMain_forward (e : Engines) (hwf : EnginesWF e) (c : Conf) (u : Ups
     rw [hr]
     simp [hB.2.1, hB.2.2.2]
 
+theorem sameModuloStrip_refl (c : Conf) (l : List RR) : sameModuloStrip c l l = true := by
+  induction l with
+  | nil => rfl
+  | cons x xs ih => simp [sameModuloStrip, ih]
+
+theorem sameModuloStrip_stripC (c : Conf) (pre : List RR) (x : RR) (post : List RR) :
+    sameModuloStrip c (pre.map (stripC c) ++ stripC c x :: post) (pre ++ x :: post) = true := by
+  have hone : ∀ y : RR, ((stripC c y).erase == y.erase || (c.aaaaDisabled && (stripC c y).erase == (stripRR y).erase)) = true := by
+    intro y
+    cases hd : c.aaaaDisabled <;> simp [stripC, hd]
+  induction pre with
+  | nil => simp [sameModuloStrip, hone, sameModuloStrip_refl]
+  | cons a as ih => simp [sameModuloStrip, hone, ih]
+
+theorem firstBlocked_candidate (e : Engines) (c : Conf) (rr : RR) (h : Bytes) (t : Nat)
+    (hfb : firstBlocked e c rr = some (h, t)) :
+    (t, hostRuleIPs e c h t t) ∈ respCandidates e c rr := by
+  unfold firstBlocked at hfb
+  unfold respCandidates
+  have hmem := List.mem_of_find?_eq_some hfb
+  have hp := List.find?_some hfb
+  apply List.mem_map.mpr
+  exact ⟨(h, t), List.mem_filter.mpr ⟨hmem, hp⟩, rfl⟩
+
 end AGH.Filter
